@@ -189,6 +189,7 @@ func childMain() {
 	if _, err := os.Stat(cfg.GenesisFile()); err != nil {
 		genDoc := &types.GenesisDoc{
 			ChainID:         nodeChainID,
+			InitialHeight:   int64(envInt("TMH_C05_IH", 1)),
 			GenesisTime:     time.Date(2020, 1, 1, 0, 0, 0, 0, time.UTC),
 			ConsensusParams: types.DefaultConsensusParams(),
 			Validators: []types.GenesisValidator{{
@@ -207,7 +208,7 @@ func childMain() {
 		childDie(dir, 5, "setup-error", err)
 	}
 	app.valKey = pubKey
-	app.exitAtBegin = int64(envInt(envBlocks, 3)) + 1
+	app.exitAtBegin = int64(envInt("TMH_C05_IH", 1)) + int64(envInt(envBlocks, 3))
 
 	// what a restarting node finds
 	storeH, stateH, stateHash, resp, err := peekStores(cfg)
@@ -299,7 +300,7 @@ func tailStr(b []byte, n int) string {
 }
 
 // runChildOnce runs one incarnation of the node on dir. failIdx < 0: no FAIL_TEST_INDEX.
-func runChildOnce(dir string, run, blocks, failIdx int, mpver string, txs []int, timeoutSec int) (nodeRun, string) {
+func runChildOnce(dir string, run, blocks, failIdx int, mpver string, txs []int, timeoutSec int, ih int) (nodeRun, string) {
 	var r nodeRun
 	var env []string
 	for _, e := range os.Environ() {
@@ -315,6 +316,7 @@ func runChildOnce(dir string, run, blocks, failIdx int, mpver string, txs []int,
 	env = append(env,
 		envChild+"="+dir,
 		envBlocks+"="+strconv.Itoa(blocks),
+		"TMH_C05_IH="+strconv.Itoa(ih),
 		envMpVer+"="+mpver,
 		envTxs+"="+strings.Join(ts, ","),
 		envTimeout+"="+strconv.Itoa(timeoutSec),
@@ -384,7 +386,7 @@ func readFinal(dir string, res *nodeResult) (err error) {
 	defer bdb.Close()
 	bs := store.NewBlockStore(bdb)
 	res.FinalStore = bs.Height()
-	for h := int64(1); h <= res.FinalStore; h++ {
+	for h := bs.Base(); h >= 1 && h <= res.FinalStore; h++ {
 		b := bs.LoadBlock(h)
 		if b == nil {
 			return fmt.Errorf("block store height %d but block %d missing", res.FinalStore, h)
@@ -419,7 +421,7 @@ func readFinal(dir string, res *nodeResult) (err error) {
 // returning): run i (i < len(fails)) has FAIL_TEST_INDEX=fails[i] (fails[i] < 0: no env, i.e. a
 // clean run); the last run has no FAIL_TEST_INDEX. A run that exits with code 0 (clean stop at
 // BeginBlock N+1) ends the sequence early.
-func runNodeCase(blocks int, fails []int, mpver string, txs []int, timeoutSec int) (res nodeResult) {
+func runNodeCase(blocks int, fails []int, mpver string, txs []int, timeoutSec int, ih int) (res nodeResult) {
 	res.Chain = map[int64][]int{}
 	if timeoutSec <= 0 {
 		timeoutSec = 60
@@ -441,7 +443,7 @@ func runNodeCase(blocks int, fails []int, mpver string, txs []int, timeoutSec in
 		if i < len(fails) {
 			f = fails[i]
 		}
-		r, problem := runChildOnce(dir, i, blocks, f, mpver, txs, timeoutSec)
+		r, problem := runChildOnce(dir, i, blocks, f, mpver, txs, timeoutSec, ih)
 		res.Runs = append(res.Runs, r)
 		if problem != "" {
 			res.Err = problem
